@@ -27,7 +27,14 @@ CASES = [
     ("shard-merge-no-stop", "mutant", S, "            if len(out) >= k_retrieval:\n                return out, used_tiers\n", "", "C09.SIB-T2"),
     ("thunk-writes-shared-counter", "mutant", T1, "        seeds = _match_keywords(text, labels)\n        if not seeds:\n", "        seeds = _match_keywords(text, labels)\n        all_deltas.append({\"op\": \"noop\", \"id\": gid})\n        if not seeds:\n", "C09.SHARE"),
     ("cache-unwrapped", "mutant", T1, "        _T1_CACHE = ThreadSafeCache(LRUCache(max_entries=max_entries, ttl_s=ttl_s))  # type: ignore[arg-type]\n", "        _T1_CACHE = LRUCache(max_entries=max_entries, ttl_s=ttl_s)\n", "C09.SHARE"),
+    ("shard-worker-stops-at-raw-k", "mutant", P, [("    out: Dict[str, List[Dict[str, Any]]] = {}\n    for tier in tiers:\n", "    out: Dict[str, List[Dict[str, Any]]] = {}\n    collected = 0\n    for tier in tiers:\n        if collected >= k_retrieval:\n            out[tier] = []\n            continue\n"),
+                                                   ("        out[tier] = normalised\n", "        out[tier] = normalised\n        collected += len(normalised)\n")], None, "C09.SIB-T2"),
+    ("shard-worker-shrinks-k", "mutant", P, [("    out: Dict[str, List[Dict[str, Any]]] = {}\n    for tier in tiers:\n", "    out: Dict[str, List[Dict[str, Any]]] = {}\n    left = int(k_retrieval)\n    for tier in tiers:\n"),
+                                              ("owner=owner_query, q_vec=q_vec, k=k_retrieval, tier=tier, hints=hints", "owner=owner_query, q_vec=q_vec, k=max(1, left), tier=tier, hints=hints"),
+                                              ("        out[tier] = normalised\n", "        out[tier] = normalised\n        left -= len(normalised)\n")], None, "C09.SIB-T2"),
     # twins
+    ("shard-worker-counts-tiers", "twin", P, [("    out: Dict[str, List[Dict[str, Any]]] = {}\n    for tier in tiers:\n", "    out: Dict[str, List[Dict[str, Any]]] = {}\n    n_hits = 0\n    for tier in tiers:\n"),
+                                               ("        out[tier] = normalised\n", "        out[tier] = normalised\n        n_hits += len(normalised)\n")], None, None),
     ("as-completed-resorted", "twin", U,
      [("        for idx, k, fut in futures:\n            try:\n                r = fut.result()\n", "        _by = {fut: (idx, k) for idx, k, fut in futures}\n        for fut in as_completed(list(_by)):\n            idx, k = _by[fut]\n            try:\n                r = fut.result()\n")], None, None),
     ("merge-fn-named", "twin", C, "                    merge_fn=lambda pairs: [hits for _, hits in pairs],\n", "                    merge_fn=(lambda pairs: [h for _, h in pairs]),\n", None),
